@@ -193,15 +193,17 @@ func (x *Exec) callFn(fr *Frame, st *State, fn *ssa.Function, args []Value, bind
 		full = o.String()
 	}
 	x.logCall(st, strings.ReplaceAll(full, modulePrefix, ""), args)
-	if fr.depth == 0 && !st.dry && !x.inInit {
+	if rfr := fr.root(); rfr.depth == 0 && rfr.fn == x.top && !st.dry && !x.inInit {
 		if tfc := x.contracts[contractKey(x.top)]; tfc != nil {
 			for _, oc := range tfc.OnCall {
-				if oc.Type == strings.ReplaceAll(full, modulePrefix, "") {
+				if nm := strings.ReplaceAll(full, modulePrefix, ""); oc.Type == nm || oc.Type == stripTypeArgs(nm) {
+					// (also for calls made from callees executed from their bodies: the clause is
+					// evaluated in the scope of the function under contract)
 					bound := map[string]Value{}
 					for i, a := range args {
 						bound[fmt.Sprintf("arg%d", i)] = a
 					}
-					g := x.evalSpec(&specScope{x: x, fr: fr, st: st, old: fr.entry, bound: bound}, oc.Expr)
+					g := x.evalSpec(&specScope{x: x, fr: rfr, st: st, old: rfr.entry, bound: bound}, oc.Expr)
 					x.oblige(fr, st, "call", x.src(fr.fn, pos, "call")+":"+oc.Label, pos, g.L[0])
 				}
 			}
@@ -262,7 +264,10 @@ func (x *Exec) callFn(fr *Frame, st *State, fn *ssa.Function, args []Value, bind
 			chain = fr.chain + ">" + fn.Name()
 		}
 		st.depth++
+		saved := x.callerFr
+		x.callerFr = fr
 		outs := x.runFunc(st, fn, args, binds, chain, fr.depth+1, nil)
+		x.callerFr = saved
 		var res []Outcome
 		for _, o := range outs {
 			o.St.depth--
